@@ -41,6 +41,9 @@ def run(tier):
     _c_drivers(chk, tier)
     _c_refiner(chk)
     _d_dispatch(chk)
+    from .. import memo
+    memo.check_modules(chk, "C17.a-memo", ["hiten.algorithms.dynamics.base", "hiten.algorithms.dynamics.hamiltonian"], floor=2,
+                       what="hand-rolled caches of compiled right-hand sides")
     return chk
 
 
